@@ -197,6 +197,17 @@ pub(crate) enum Expr {
 }
 
 impl Expr {
+    /// The name of the `const` variable that a store through this expression
+    /// (a name, an index into it, a member of it) would write to, if there is one.
+    fn const_root(&self) -> Option<&str> {
+        match self {
+            Expr::Value(Value::Ident(ident)) if ident.is_const() => Some(ident.name()),
+            Expr::Index { lhs_raw, .. } => lhs_raw.const_root(),
+            Expr::DotLookup { lhs, .. } => lhs.const_root(),
+            _ => None,
+        }
+    }
+
     pub(crate) fn validate(
         &self,
         flags: &TypecheckFlags<impl Deref<Target = ClassType> + Debug>,
@@ -223,6 +234,13 @@ impl Expr {
         match self {
             Expr::Value(val) => val.for_type(flags),
             Expr::BinOp { lhs, op, rhs } => {
+                if op.is_op_assign() || matches!(op, Op::Unwrap) {
+                    // these operators store into their left operand
+                    if let Some(name) = lhs.const_root() {
+                        bail!("cannot reassign using {op} to {name}, which is const")
+                    }
+                }
+
                 let lhs = if op.is_op_assign() {
                     match lhs.as_ref() {
                         Expr::Value(Value::Ident(ident)) => {
